@@ -128,6 +128,10 @@ func (vc *VC) generate() {
 	f := vc.newFrame(fn, con, 0)
 	f.top = true
 	f.safety = con == nil || !con.NoSafety
+	if con != nil && len(con.Arith) > 1 && vc.mode.String() != con.Arith[0] {
+		// a function verified in two arithmetic modes proves its safety obligations in the first
+		f.safety = false
+	}
 	vc.topFrame = f
 	for _, p := range fn.Params {
 		t := Term{"p_" + sanitize(p.Name()), vc.info(p.Type()).sort}
